@@ -602,3 +602,42 @@ def run(ck, prog):
     _run_pre_progress(ck, prog)
     from sa import progress
     progress.run_rule(ck, prog, set(DIMENSION_FILES))
+
+
+# ------------------------------------------------------------------ transform returns the matrix it built
+_run_pre_retx = run
+
+
+def transform_returns_result(ck, prog):
+    """Every successful return of transform is the freshly built result matrix: no path hands back (a clone of) the input -
+    a 'nothing to expand' fast path skips the indicator values and the unseen-value check for single-category columns."""
+    from sa.prov import Resolver, render, alts, subterms
+    rule, inst = "E1-lookup-failure", "transform: no path returns the input matrix instead of the encoded one"
+    try:
+        b = prog.one(r"^preprocessing::categorical::OneHotEncoder::transform$")
+    except AnchorError as e:
+        ck.violation(rule, inst, "transform", "", expected="anchor exists", found=f"anchor vanished: {e}")
+        return
+    res = Resolver(b)
+    ret = res.local(0)
+    bad = []
+    for a in [ret] + list(alts(ret)):
+        pay = a
+        while pay[0] in ("agg", "variant") and len(pay) > 2 and isinstance(pay[2], tuple) and pay[2]:
+            pay = pay[2][0]
+        for x in [pay] + list(alts(pay)):
+            if x[0] == "arg" and x[1] == 2:
+                bad.append(render(a)[:60])
+    if bad:
+        ck.violation(rule, inst, b.path, f"{b.loc[0]}:{b.loc[1]}", expected="Ok(result) with result built from zeros(..) by the encoding loops",
+                     found=f"some path returns `{bad[0]}`: the input itself (categorical columns not encoded, values not checked)")
+    else:
+        ck.ok(rule, inst, b.path, f"{b.loc[0]}:{b.loc[1]}", "no return value is the input argument")
+
+
+def run(ck, prog):
+    _run_pre_retx(ck, prog)
+    transform_returns_result(ck, prog)
+
+
+EXPLANATION += (' transform never returns its input instead of the encoded matrix.')
